@@ -426,6 +426,11 @@ func c04IDs(p *core.Prog, r *core.Report, locks *core.Locks) {
 		r.Check(ok, "C04-R4", fname(f), "received frame id compared with the exchange id", p.Pos(f.Pos()), "checkFrame compares Header.ID with msgID", "received frames are not checked against the exchange's id")
 	}
 	recvPriority(p, r, "C04-R4")
+	// through a relay too: an item is failed under the id it is registered with
+	c08PostRemapIDs(p, r, "C04-R4")
+	// the connection's single reader goroutine is never parked on one call's
+	// full buffer beyond that exchange's life: other calls proceed
+	exchangeWaitsHaveLatch(p, r, "C04-R5")
 }
 
 // recvPriority: shared by C04 (each caller receives its own complete response) and
